@@ -605,7 +605,7 @@ def rule_progress(ck, prog, S, model):
             why = "the loop does not advance data / shrink len by the detector's result"
             continue
         # every cycle passes both, and they are guarded by r < len
-        cyc = pg.reachable([pg.after(dcall[0])], blocked_edge=lambda e: e.kind == "elem" and (e.node in adv or e.node in shr))
+        cyc = pg.reachable_flags([pg.after(dcall[0])], blocked_edge=lambda e: e.kind == "elem" and (e.node in adv or e.node in shr))
         if pg.before(dcall[0]) in cyc:
             why = "a cycle of the unit loop does not consume the detected unit"
             continue
